@@ -286,7 +286,7 @@ pub fn main(args: &[String]) {
     let meta = rows.iter().find(|r| r["meta"] == "threshold").expect("no threshold table");
     let cases: Vec<&Value> = rows.iter().filter(|r| r.get("meta").is_none()).collect();
     let mut res = par_map(&cases, threads(), |i, c| {
-        check_case(c, i).into_iter().map(|m| json!({"case": i, "input": c, "mismatch": m})).collect()
+        check_case(c, mix(i)).into_iter().map(|m| json!({"case": i, "input": c, "mismatch": m})).collect()
     });
     res.extend(check_threshold(meta));
     res.extend(check_config_chains());
